@@ -97,8 +97,9 @@ def eval_shape(shape, st):
                                      dict(base, options=opts, future=future, rebuilt=str(sig1)), {'options': ob})
                         continue
                     st.seen('result', (shape, annotate, ret, ob, future, style))
-                    if annotate or ret or future:
-                        continue    # call behaviour does not depend on annotations: executed once per shape and option set
+                    if future or (ret and not annotate) or ((annotate or ret) and not ob):
+                        continue    # native spelling: call behaviour does not depend on annotations; the modifier spellings
+                                    # (annotate on top of kwoargs / posoargs) are executed with and without annotations
                     n = 0
                     for a, k in calls:
                         if callsem.po_by_keyword(shape, k):
